@@ -7,7 +7,8 @@ Ctx(kk) == [t |-> "ctx", vals |-> <<>>, lo |-> 0, hi |-> 0, steps |-> 0, endp |-
 CtxList23 == <<2, 3>>
 CtxNone == <<>>
 Domains == {Seq_(<<1, 2>>), Seq_(<<3>>), Seq_(<<4, 5, 6>>), Lin(0, 6, 3, TRUE), Lin(0, 6, 3, FALSE),
-            Log_(1, 10000, 2, TRUE), Log_(1, 10000, 2, FALSE), Ctx("s")}
+            Log_(1, 10000, 2, TRUE), Log_(1, 10000, 2, FALSE), Ctx("s"),
+            Lin(6, 0, 3, TRUE), Log_(10000, 1, 2, FALSE)}       \* descending ranges (lo > hi) run from lo DOWN to hi
 Kinds == {"src", "op", "probe"}
 OneVar == {[kind |-> kd, vars |-> [n \in {"t"} |-> d], mode |-> m, bc |-> b, expr |-> e, bplace |-> bp] :
              kd \in Kinds, d \in Domains, m \in {"comb", "bp"}, b \in BOOLEAN, e \in {"t", "2*t"}, bp \in {"config", "context", "default"}}
